@@ -10,6 +10,16 @@ from simkit.progs import ALL_FEATURES, HEADER, Gen, GenConfig, RawProgram
 from simkit.runner import RunOutcome
 
 
+def recorded_form(outcome: tuple, expect: tuple) -> bool:
+    """
+    An error that cannot be serialized is recorded as Exception(repr(error)) (documented in
+    _reject_job_main_thread); an equal failing call that is served from that record (CSE) fails
+    with the recorded form. Only ErrRes, which is built to be unserializable, can take it.
+    """
+    return (outcome[0] == "e" and expect[0] == "e" and type(expect[1]).__name__ == "ErrRes"
+            and type(outcome[1]) is Exception and outcome[1].args == (repr(expect[1]),))
+
+
 def gen_orphan_program(ch: Choices) -> RawProgram:
     """
     Targeted family: a parent job fails because of one child while its other children still
@@ -107,7 +117,8 @@ class C12(EngineACheck):
                                 {"execution": ex, "value": repr(res.outcome[1])[:200]})
                     break
                 err = res.outcome[1]
-                if (type(err).__name__, str(err.args[0]) if err.args else "") not in prog.task_errors:
+                if (type(err).__name__, str(err.args[0]) if err.args else "") not in prog.task_errors \
+                        and not recorded_form(res.outcome, ("e", proglib.ErrRes("boom-bad"))):
                     out.violate("C12.error_identity", "orphan-family/not-a-task-error",
                                 {"execution": ex, "real": repr(err)[:300]})
                     break
@@ -170,7 +181,7 @@ class C12(EngineACheck):
                     out.violate("C12.terminates", res.outcome[1], {"execution": ex})
                     break
                 key = refinterp.okey(res.outcome)
-                if key != refinterp.okey(expect):
+                if key != refinterp.okey(expect) and not recorded_form(res.outcome, expect):
                     out.violate("C12.error_identity" if expect[0] == "e" else "C12.caught_value",
                                 f"execution-{min(ex, 1)}",
                                 {"execution": ex, "real": repr(key)[:300],
